@@ -706,8 +706,8 @@ def initP1 (a : PeerSt × BackendSt × Nat) (st : ReplyRow) : PeerSt :=
 def syncingStep (p1 : PeerSt) : PeerSt :=
   if p1.status != .pending && p1.status != .syncing then { p1 with status := .syncing, lastError := "reconnecting..." } else p1
 
-theorem initAllTables_eq (w : World) (now : Int) (p : PeerSt) (b : BackendSt) :
-    initAllTables w now p b =
+theorem initAllTablesRaw_eq (w : World) (now : Int) (p : PeerSt) (b : BackendSt) :
+    initAllTablesRaw w now p b =
       let q := query w now (initP0 p now) b
       match q.2.2 with
       | some _ => { p := q.1, b := q.2.1, err := .failed "status" }
@@ -718,7 +718,7 @@ theorem initAllTables_eq (w : World) (now : Int) (p : PeerSt) (b : BackendSt) :
         | st :: _ =>
           let a := availStep w now q.1 q.2.1 (q.1.flags ||| versionFlag w.schema (replyStr st "livestatus_version"))
           let p2 : PeerSt := syncingStep (initP1 a st)
-          let l := initAllTables.loop w now (updateTables.drop 1) p2 a.2.1 (cache0 w (q.2.1.rows "status"))
+          let l := initAllTablesRaw.loop w now (updateTables.drop 1) p2 a.2.1 (cache0 w (q.2.1.rows "status"))
           match l.2.2 with
           | none => { p := l.1, b := l.2.1, err := .failed "table" }
           | some c =>
@@ -742,18 +742,18 @@ def freshCache (w : World) (b : BackendSt) : Cache :=
 
 theorem loop_spec (w : World) (now : Int) :
     ∀ (ts : List String) (p : PeerSt) (b : BackendSt) (c : Cache),
-      StepsB w now p (initAllTables.loop w now ts p b c).1 ∧
-      (initAllTables.loop w now ts p b c).2.1.tables = b.tables ∧
-      (∀ c', (initAllTables.loop w now ts p b c).2.2 = some c' →
+      StepsB w now p (initAllTablesRaw.loop w now ts p b c).1 ∧
+      (initAllTablesRaw.loop w now ts p b c).2.1.tables = b.tables ∧
+      (∀ c', (initAllTablesRaw.loop w now ts p b c).2.2 = some c' →
           c' = ts.foldl (fun c t => c.set t (syncTable (tableOf w t) (b.rows t))) c) ∧
-      ((initAllTables.loop w now ts p b c).2.2 = none →
-          ∃ q msg, StepsB w now p q ∧ (initAllTables.loop w now ts p b c).1 = q.fail w now msg ∧
+      ((initAllTablesRaw.loop w now ts p b c).2.2 = none →
+          ∃ q msg, StepsB w now p q ∧ (initAllTablesRaw.loop w now ts p b c).1 = q.fail w now msg ∧
             (msg = "connection failed" ∨ msg = "bad response"))
   | [], p, b, c => by
-    unfold initAllTables.loop
+    unfold initAllTablesRaw.loop
     exact ⟨.refl p, rfl, (fun c' h => by cases h; rfl), (fun h => by cases h)⟩
   | t :: ts, p, b, c => by
-    unfold initAllTables.loop
+    unfold initAllTablesRaw.loop
     simp only []
     have hq := query_stepsB w now p b true
     have ht := (query_tables w now p b true).1
@@ -830,15 +830,15 @@ theorem failEnd_via {w : World} {now : Int} {p p2 q : PeerSt} {msg : String}
       · exact .inr h1
   · rw [fail_lastError]; exact msg_ne hm
 
-/-- everything the property theorems need to know about `InitAllTables` -/
-theorem initAllTables_spec (w : World) (now : Int) (p : PeerSt) (b : BackendSt) :
-    (initAllTables w now p b).b.tables = b.tables ∧
-    ((initAllTables w now p b).err = .none →
-      (initAllTables w now p b).p.cache = some (rebuildLists (freshCache w b)) ∧
-      (initAllTables w now p b).p.status = .up ∧ (initAllTables w now p b).p.lastError = "" ∧
-      (initAllTables w now p b).p.lastOnline = now ∧ (initAllTables w now p b).p.errorCount = 0) ∧
-    ((initAllTables w now p b).err ≠ .none → FailEnd p (initAllTables w now p b).p) := by
-  rw [initAllTables_eq]
+/-- everything the property theorems need to know about `InitAllTables` before its deferred clean-up -/
+theorem initAllTablesRaw_spec (w : World) (now : Int) (p : PeerSt) (b : BackendSt) :
+    (initAllTablesRaw w now p b).b.tables = b.tables ∧
+    ((initAllTablesRaw w now p b).err = .none →
+      (initAllTablesRaw w now p b).p.cache = some (rebuildLists (freshCache w b)) ∧
+      (initAllTablesRaw w now p b).p.status = .up ∧ (initAllTablesRaw w now p b).p.lastError = "" ∧
+      (initAllTablesRaw w now p b).p.lastOnline = now ∧ (initAllTablesRaw w now p b).p.errorCount = 0) ∧
+    ((initAllTablesRaw w now p b).err ≠ .none → FailEnd p (initAllTablesRaw w now p b).p) := by
+  rw [initAllTablesRaw_eq]
   simp only []
   have hb0 : StepsB w now p (initP0 p now) := .book (.refl p) rfl
   have hq := hb0.trans (query_stepsB w now (initP0 p now) b true)
@@ -873,7 +873,7 @@ theorem initAllTables_spec (w : World) (now : Int) (p : PeerSt) (b : BackendSt) 
           intro hu; rw [hu] at hcond; simp at hcond
       generalize syncingStep p1 = p2 at hc2 hs2 ⊢
       obtain ⟨l1, l2, l3, l4⟩ := loop_spec w now (updateTables.drop 1) p2 a.2.1 (cache0 w (st :: rest))
-      generalize initAllTables.loop w now (updateTables.drop 1) p2 a.2.1 (cache0 w (st :: rest)) = l at l1 l2 l3 l4 ⊢
+      generalize initAllTablesRaw.loop w now (updateTables.drop 1) p2 a.2.1 (cache0 w (st :: rest)) = l at l1 l2 l3 l4 ⊢
       cases hl : l.2.2 with
       | none =>
         refine ⟨(l2.trans hta).trans ht, (fun h => by cases h), fun _ => ?_⟩
